@@ -42,17 +42,9 @@ func (g *Gen) vtype() *TyDef {
 	return B("int")
 }
 
-// vtypeElem: a varint-kind slice element. ([]MyU8 would be a byte-kinded slice
-// that is not []byte; MyU8 is generated only outside slices.)
-func (g *Gen) vtypeElem() *TyDef {
-	for {
-		t := g.vtype()
-		if t.K == "named" && t.Name == "MyU8" {
-			continue
-		}
-		return t
-	}
-}
+// vtypeElem: a varint-kind slice element ([]MyU8 is a byte-kinded slice that is
+// not []byte: packed varints; both sides render it as a list).
+func (g *Gen) vtypeElem() *TyDef { return g.vtype() }
 
 func (g *Gen) ftype() *TyDef {
 	switch g.r.Intn(5) {
